@@ -1,5 +1,6 @@
 #!/bin/sh
 # run inside `vp run`: full setup, then every thorough check on the unchanged tree; prints one line per check
+AS_REPO=${VP_RUN_REPO:-/repo}; export AS_REPO      # vp run --with-repo: the run's own copy of the repository
 ./setup.sh | tail -1
 for p in C01 C02 C03 C04 C05 C06 C07 C08 C09 C10 C11 C12 C13 C14 C15 C16 C17 C18 C19; do
   s=$(date +%s); out=$(./check $p --tier thorough 2>&1); rc=$?; e=$(date +%s)
